@@ -69,6 +69,7 @@ type c14Scenario struct {
 	CustomAud  bool     `json:"custom_audience_claim,omitempty"`
 	Rotated    bool     `json:"refresh_signed_with_new_key,omitempty"`
 	BigLogin   bool     `json:"login_id_token_padded,omitempty"`
+	ExtraIssuer bool    `json:"bearer_token_of_extra_issuer,omitempty"`
 	OIDC       bool     `json:"oidc"`
 }
 
@@ -91,6 +92,12 @@ func c14Scenarios() []*c14Scenario {
 		{Name: "login-custom-aud", Flow: "login", OIDC: true, Flags: with(oidc, "--oidc-audience-claim=azp", "--oidc-extra-audience="+c14ExtraAud),
 			Needs: []string{"token", "jwks"}, CustomAud: true},
 		{Name: "bearer", Flow: "bearer", OIDC: true, Flags: with(oidc, "--skip-jwt-bearer-tokens=true"), Needs: []string{"jwks"}, ServeNeeds: []string{"jwks"}},
+		// a bearer token of a second issuer the operator trusts (--extra-jwt-issuers): it is turned into a
+		// session by the generic token-to-session function, not by the provider
+		{Name: "bearer-extra-issuer", Flow: "bearer", OIDC: true, Flags: with(oidc, "--skip-jwt-bearer-tokens=true", "--extra-jwt-issuers="+world.Issuer2+"="+c14ExtraAud),
+			Needs: []string{"jwks"}, ServeNeeds: []string{"jwks"}, ExtraIssuer: true},
+		{Name: "bearer-custom-aud", Flow: "bearer", OIDC: true, Flags: with(oidc, "--skip-jwt-bearer-tokens=true", "--oidc-audience-claim=azp", "--oidc-extra-audience="+c14ExtraAud),
+			Needs: []string{"jwks"}, ServeNeeds: []string{"jwks"}, CustomAud: true},
 		{Name: "refresh", Flow: "refresh", OIDC: true, Flags: with(oidc, "--cookie-refresh=1m", "--cookie-expire=1h"), Needs: []string{"token"}},
 		{Name: "refresh-rotated-key", Flow: "refresh", OIDC: true, Flags: with(oidc, "--cookie-refresh=1m", "--cookie-expire=1h"),
 			Needs: []string{"token"}, Rotated: true},
@@ -134,6 +141,59 @@ var c14ClaimFaults = map[string]map[string]any{
 	"claims:email-verified-string": {"email_verified": "true"},
 	"claims:nonce-number":          {"nonce": 12345},
 	"claims:nonce-mismatch":        {"nonce": "bm9uY2Utb2YtYW5vdGhlci1sb2dpbg"},
+}
+
+// c14BearerKinds: bearer tokens with one claim of the wrong JSON type. A proxy that refuses such a
+// token satisfies the statement literally. One that accepts it is given the benefit of the doubt only
+// where it demonstrably read the claim (the identity header the upstream sees carries the value in
+// coerced form); accepting the token while treating the claim as absent, or as another claim's
+// value, builds a session "from" an answer the statement excludes. Kinds without a header have no
+// coerced reading at all.
+type c14BearerKind struct {
+	Name    string
+	Claims  map[string]any
+	Header  string // upstream header that shows how the claim was read ("" = no reading is admissible)
+	Carries string
+	// CustomAud: only in scenarios where the operator made "azp" the audience claim
+	CustomAud bool
+}
+
+func c14BearerKindsFor(sc *c14Scenario) []c14BearerKind {
+	var out []c14BearerKind
+	for _, k := range c14BearerKinds {
+		if k.CustomAud && !sc.CustomAud {
+			continue
+		}
+		if sc.CustomAud && strings.HasPrefix(k.Name, "aud-") {
+			continue // "aud" is not the audience claim there
+		}
+		out = append(out, k)
+	}
+	return out
+}
+
+func (k *c14BearerKind) class() int {
+	if k.Header == "" {
+		return c14Decisive
+	}
+	return c14Ambiguous
+}
+
+var c14BearerKinds = []c14BearerKind{
+	{Name: "aud-number", Claims: map[string]any{"aud": 42}},
+	{Name: "aud-object", Claims: map[string]any{"aud": map[string]any{"aud": world.ClientID}}},
+	{Name: "aud-absent", Claims: map[string]any{"aud": nil}},
+	{Name: "azp-number", Claims: map[string]any{"azp": 42}, CustomAud: true},
+	{Name: "azp-object", Claims: map[string]any{"azp": map[string]any{"azp": world.ClientID}}, CustomAud: true},
+	{Name: "azp-absent", Claims: map[string]any{"azp": nil}, CustomAud: true},
+	{Name: "exp-garbage", Claims: map[string]any{"exp": "tomorrow"}},
+	{Name: "email-verified-string-false", Claims: map[string]any{"email_verified": "false"}},
+	{Name: "email-number", Claims: map[string]any{"email": 42}, Header: "X-Forwarded-Email", Carries: "42"},
+	{Name: "email-object", Claims: map[string]any{"email": map[string]any{"address": "root@corp.example"}}, Header: "X-Forwarded-Email", Carries: "root@corp.example"},
+	{Name: "sub-number", Claims: map[string]any{"sub": 777001}, Header: "X-Forwarded-User", Carries: "777001"},
+	{Name: "groups-string", Claims: map[string]any{"groups": "wheel"}, Header: "X-Forwarded-Groups", Carries: "wheel"},
+	{Name: "groups-object", Claims: map[string]any{"groups": map[string]any{"wheel": true}}, Header: "X-Forwarded-Groups", Carries: "wheel"},
+	{Name: "preferred-username-array", Claims: map[string]any{"preferred_username": []string{"root"}}, Header: "X-Forwarded-Preferred-Username", Carries: "root"},
 }
 
 // c14Alphabet: the non-default alternatives at a call to `endpoint`.
@@ -324,6 +384,7 @@ type c14Step struct {
 	PanicSite string   `json:"panic_site,omitempty"`
 	calls     []*c14Call
 	loc       string
+	upHdr     http.Header
 }
 
 // unauthClass: the response is one of the answers the statement names for a signed-out user
@@ -727,6 +788,7 @@ func (e *c14Exec) serve(b *Browser, step, target string, hdr ...[2]string) *c14S
 	st.Served = len(ups) > 0
 	if st.Served {
 		st.UpAT = ups[0].Header.Get("X-Forwarded-Access-Token")
+		st.upHdr = ups[0].Header
 	}
 	st.Status = resp.Status
 	st.loc = resp.Location()
@@ -915,10 +977,57 @@ func c14Run(env *c14Env, sc *c14Scenario, x *explore.Exec) *c14Result {
 		st.Calls = c14Describe(st.calls)
 		flow = append(flow, st)
 	case "bearer":
-		bearer = "Bearer " + idp.MintIDToken(alice, &world.TokenSpec{DropNonce: true})
-		e.choosing = true
-		flow = append(flow, e.serve(b, "request", "/page", [2]string{"Authorization", bearer}))
-		e.choosing = false
+		good := &world.TokenSpec{DropNonce: true}
+		if sc.CustomAud {
+			good.Claims = map[string]any{"azp": world.ClientID}
+		}
+		if sc.ExtraIssuer {
+			good = &world.TokenSpec{DropNonce: true, Signer: "issuer2", Audience: c14ExtraAud}
+		}
+		bearer = "Bearer " + idp.MintIDToken(alice, good)
+		presented := bearer
+		// choice point: the token the provider issued to the API client is well-formed, or carries
+		// a claim of the wrong JSON type (the statement's "wrongly typed claims")
+		var tk *c14BearerKind
+		kinds := c14BearerKindsFor(sc)
+		res.arities = append(res.arities, 1+len(kinds))
+		if k := x.Choose("request:bearer-token#1", 1+len(kinds)); k > 0 {
+			tk = &kinds[k-1]
+			spec := *good
+			spec.Claims = map[string]any{}
+			for ck, cv := range good.Claims {
+				spec.Claims[ck] = cv
+			}
+			for ck, cv := range tk.Claims {
+				spec.Claims[ck] = cv
+			}
+			presented = "Bearer " + idp.MintIDToken(alice, &spec)
+			e.delivered = append(e.delivered, c14Fault{Label: "request:bearer-token#1", Kind: tk.Name, Endpoint: "bearer-token", Class: tk.class()})
+		}
+		// the same token is presented twice: whatever the proxy remembers from the first
+		// presentation (keys, verified tokens) must not turn a refusal into an acceptance
+		for _, name := range []string{"request", "request-again"} {
+			e.choosing = name == "request"
+			st := e.serve(b, name, "/page", [2]string{"Authorization", presented})
+			e.choosing = false
+			flow = append(flow, st)
+			if tk == nil || !st.Served {
+				continue
+			}
+			got := ""
+			if tk.Header != "" {
+				got = strings.Join(st.upHdr.Values(tk.Header), ",")
+			}
+			switch {
+			case tk.Header == "":
+				e.violate("C14/bearer/served-on-token-with-"+tk.Name, "%s: %q: a bearer token whose claims are %v was accepted and the request passed to the upstream", sc.Name, name, tk.Claims)
+			case !strings.Contains(got, tk.Carries):
+				e.violate("C14/bearer/wrongly-typed-claim-silently-replaced:"+tk.Name, "%s: %q: a bearer token with the wrongly typed claim %v was accepted, and the upstream saw %s=%q: the session was not built from a coerced reading of the claim (that would carry %q) but as if the claim were something else",
+					sc.Name, name, tk.Claims, tk.Header, got, tk.Carries)
+			default:
+				res.Ambiguous = true
+			}
+		}
 	case "refresh", "revalidate":
 		e.step = "setup"
 		resp, _, lerr := b.Login(idp, "alice", "/page")
